@@ -77,6 +77,7 @@ class Runner:
         for name, (num, den) in sorted(prog['clocks'].items()):
             self.clocks[name] = clk.TempoClock(num / den)
         self.routines = {}
+        self.conds = {}
         self.addr = addr
         seeds = [i['a'] for body in prog['routines'].values() for i in body if i['op'] in ('K', 'KC')]
         self.lookup = {}
@@ -84,6 +85,12 @@ class Runner:
             g = random.Random(s)
             for ix in range(64):
                 self.lookup[g.random()] = (str(s), ix)
+
+    def cond(self, name):
+        from sc3.base.stream import Condition
+        if name not in self.conds:
+            self.conds[name] = Condition()
+        return self.conds[name]
 
     def clockname(self, c):
         for k, v in self.clocks.items():
@@ -151,6 +158,15 @@ class Runner:
                     self.routine(i['s']).pause()
                 elif op == 'Z':
                     self.routine(i['s']).resume(None, 0)
+                elif op == 'W':
+                    yield from self.cond(i['s']).wait()
+                    n += 1
+                    self.obs(name, n, clock)
+                elif op == 'G':
+                    c = self.cond(i['s'])
+                    if i['a'] == 1:
+                        c.test = True
+                    c.signal()
                 elif op == 'K':
                     me.rand_seed = i['a']
                 elif op == 'KC':
